@@ -639,7 +639,7 @@ func TestDrive_C07(t *testing.T) {
 func TestDrive_C08(t *testing.T) {
 	pf := execProfile{name: "C08", kinds: []string{"Retry", "Retry", "Fallback", "Breaker", "Bulkhead", "Limiter", "Timeout"}, hedgePct: 20, maxDepth: 4, mustHave: "Retry", extPct: 0, coopPct: 60, maxReqs: 1}
 	driveExec(t, "C08", pf, 0, 0,
-		"single executions through stacks containing a retry policy (optionally with fallback, breaker, bulkhead, rate limiter, timeout); each scenario is first run without cancellation, then re-run with the caller's context cancelled (or its deadline reached) at instants taken from the uncancelled run's own event times, 1ns before and after them and midway between them, so that the cancellation lands inside the function, between attempts, during each kind of wait and before the first attempt. Non-trivial = the cancellation changed the outcome. "+execRule,
+		"single executions through stacks containing a retry policy (optionally with fallback, breaker, bulkhead, rate limiter, timeout); each scenario is first run without cancellation, then re-run with the caller's context cancelled (or its deadline reached, or -- async entry points -- ExecutionResult.Cancel() called) at instants taken from the uncancelled run's own event times, 1ns before and after them and midway between them, so that the cancellation lands inside the function, between attempts, during each kind of wait and before the first attempt. Non-trivial = the cancellation changed the outcome. "+execRule,
 		func(w *CaseWriter, rng *Rng, add func(InstD, []ReqD, string)) {
 			n := 110
 			if envTier() == "thorough" {
@@ -665,6 +665,9 @@ func TestDrive_C08(t *testing.T) {
 				rq := ReqD{Stack: stack, CtxKey: -1, Entry: Pick(rng, append(append([]string{}, execEntries...), plainEntries...)),
 					Script: []FnStepD{{Out: genOutcome(rng), Dur: genDur(rng)}, {Out: OutD{R: 1}, Dur: 1024}},
 					ExtT: 1 + rng.I64n(waitFor-1), ExtKind: Pick(rng, []string{"Cancel", "Deadline"})}
+				if strings.HasSuffix(rq.Entry, "Async") && rng.Chance(60) {
+					rq.ExtKind = "AsyncCancel" // ExecutionResult.Cancel() in the middle of the outer policy's wait
+				}
 				if strings.HasPrefix(rq.Entry, "Run") {
 					for k := range rq.Script {
 						rq.Script[k].Out.R = 0
@@ -717,6 +720,9 @@ func TestDrive_C08(t *testing.T) {
 					rq := reqs[0]
 					rq.ExtT = tc
 					rq.ExtKind = Pick(rng, []string{"Cancel", "Deadline"})
+					if strings.HasSuffix(rq.Entry, "Async") && rng.Chance(50) {
+						rq.ExtKind = "AsyncCancel"
+					}
 					add(inst, []ReqD{rq}, "cancel-sweep")
 				}
 			}
